@@ -101,8 +101,9 @@ CONTRACTS = [
                 ("C14-original-untouched", "RAWARR() == old(RAWARR()) and GCARR() == old(GCARR()) and SOWF() == old(SOWF()) and UNKF() == old(UNKF())")],
        top=["C14-copy-has-the-same-values", "C14-copy-keeps-presence", "C14-copy-keeps-unknown-fields", "C14-copy-keeps-selection"],
        loops={0: LOOP(index="sk", inv=[
-           ("copied-so-far", "forall(0, NF, lambda jq: same(SELECT(KWARR(kwargs), jq), RAWV(jq)) if SORTED_RANK(jq) < sk"
-                             " else is_placeholder(SELECT(KWARR(kwargs), jq)))"),
+           ("copied-so-far", "forall(0, NF, lambda jq: same(RAWV_OF(new, jq), RAWV(jq)) if SORTED_RANK(jq) < sk"
+                             " else is_placeholder(RAWV_OF(new, jq)))"),
+           ("new-object", "INITIALISED_OF(new)"),
            ("frame", "RAWARR() == old(RAWARR()) and GCARR() == old(GCARR()) and SOWF() == old(SOWF()) and UNKF() == old(UNKF()) and INITIALISED()")])},
        props=["C14", "C07", "C08"]),
     FN("betterproto.Message.__deepcopy__", types={"self": "model:rawmsg", "_": "obj"}, returns="any",
@@ -115,8 +116,9 @@ CONTRACTS = [
                 ("C14-original-untouched", "RAWARR() == old(RAWARR()) and GCARR() == old(GCARR()) and SOWF() == old(SOWF()) and UNKF() == old(UNKF())")],
        top=["C14-deepcopy-has-the-same-scalars-and-the-same-unset-fields", "C14-copy-keeps-presence", "C14-copy-keeps-unknown-fields", "C14-copy-keeps-selection"],
        loops={0: LOOP(index="sk", inv=[
-           ("copied-so-far", "forall(0, NF, lambda jq: ((same(SELECT(KWARR(kwargs), jq), RAWV(jq)) if IS_SCALAR_VALUE(RAWV(jq)) else not is_placeholder(SELECT(KWARR(kwargs), jq)))"
-                             " if SORTED_RANK(jq) < sk else is_placeholder(SELECT(KWARR(kwargs), jq))))"),
+           ("copied-so-far", "forall(0, NF, lambda jq: ((same(RAWV_OF(new, jq), RAWV(jq)) if IS_SCALAR_VALUE(RAWV(jq)) else not is_placeholder(RAWV_OF(new, jq)))"
+                             " if SORTED_RANK(jq) < sk else is_placeholder(RAWV_OF(new, jq))))"),
+           ("new-object", "INITIALISED_OF(new)"),
            ("frame", "RAWARR() == old(RAWARR()) and GCARR() == old(GCARR()) and SOWF() == old(SOWF()) and UNKF() == old(UNKF()) and INITIALISED()")])},
        props=["C14", "C07", "C08"]),
     FN("betterproto.Message.__copy_state", types={"self": "model:rawmsg", "new": "model:rawmsg"}, returns="any", modifies=["new"],
